@@ -10,6 +10,8 @@ from .dfacts import batch_facts, eh_fold_facts, mw_fold_facts, rejection_facts
 
 
 def run(ck: Check, prog: Program) -> None:
+    from .common import dispatcher_program
+    prog = dispatcher_program(prog)
     roles = dispatchers(prog)
     ck.explain('Structural fold rules: the constructor folds partial(middleware, handler=chain) over reversed(middlewares) '
                'starting from the own per-element handler, and that one attribute is what both dispatch branches call, once '
